@@ -261,6 +261,28 @@ def run(ck):
             check_frame(ck, f'{fe}{tname}: save() with default arguments', df, ps, table, False, True, None, None, False)
         except AbsRaise as e:
             ck.violate('C19.save', f'PandasStore.save:defaults-raise-{e.exc.tname}', f'{fe}: save() raises {e.exc}')
+    # two stream ids that are the same once made CF-safe: each collected result still has to come out as a column of its own
+    ctable = Table(5, streams=('sal.t', 'sal t'), concrete={'sal.t': [1, 5, 30, 3, 9], 'sal t': [2, 2, 2, 2, 50], 'lat': [1, 2, 3, 4, 5], 'lon': [6, 7, 8, 9, 10]})
+    csrc = make_config_source([dict(window=(None, None), tests={'sal.t': ['gross'], 'sal t': ['gross']})])
+    for fe in ('numpy', 'pandas'):
+        run0 = run_frontend(r, fe, ctable, csrc)
+        if run0.error is not None:
+            ck.violate('C19.save', f'{fe}:stream-raises', f'{fe}: the stream raises {run0.error.exc}')
+            continue
+        try:
+            ps = it.instantiate(PS, [list(run0.context_results)], {}, None)
+            df = it.call(it.getattr(ps, 'save', None), [], {}, None)
+        except AbsRaise as e:
+            ck.violate('C19.save', f'PandasStore.save:cf-clashing-ids:raises-{e.exc.tname}', f'{fe}: save() with stream ids that clash after CF-safe renaming raises {e.exc}')
+            continue
+        crs = ps.attrs['collected_results']
+        cols = dict(df.columns)
+        result_cols = [n for n in cols if n not in ('time', 'z', 'lat', 'lon')]
+        flags = sorted(str(concrete_flags(cols[n])) for n in result_cols)
+        want = sorted(str(concrete_flags(cr.attrs['results'])) for cr in crs)
+        ck.ob('C19.columns', f'{fe}: save() with stream ids "sal.t" and "sal t"', flags == want, key='PandasStore.save:cf-clashing-ids:result-lost',
+              what=f'{fe}: the stream ids "sal.t" and "sal t" both become "sal_t": {len(crs)} collected results but result columns {result_cols} - '
+                   'a result is overwritten / dropped instead of getting a uniquely named column')
     ck.floor('C19.columns', 40)
     if getattr(ck, 'regex_uses', 0):
         ck.floor('C19.regex', 3)
